@@ -74,8 +74,6 @@ def run(ctx):
     ctx.constants["GenReads"] = {"files": files, "classes": len(reads)}
     nsingle = 48 if q else 10 ** 6
     nscen = 36 if q else 400
-    if not q:
-        ctx.exhaustive = False
     out = ctx.impl("harness/immutable_driver.py", ["--mode", "reads"],
                    input_obj={"files": files, "reads": reads, "nsingle": nsingle, "nscen": nscen}, timeout=3000)
     traces = list(out["uploads"])
